@@ -122,6 +122,23 @@ def invariance_case(chk, r, kind, els, total, p):
         sl = [int(x) for x in arr[1:].hilbert_distance(total_bounds=list(total), p=p)]
         if sl != hd[1:]:
             chk.violation("hilbert_distance/depends-on-slicing", dict(rep, sliced=sl, whole=hd), size=n); return
+    # default extent = the array's own: a window of an array (head, tail, middle - it shares the parent's buffers) behaves like
+    # a fresh array of the same elements
+    if n >= 3:
+        for lo, hi in ((0, n - 1), (0, 1), (1, n), (1, n - 1)):
+            wels = els[lo:hi]
+            if not any(e is not None and geo.verts_of(kind, e) for e in wels):
+                continue
+            try:
+                fresh = geo.make_array(kind, wels, "float64")
+                a, b = [int(x) for x in arr[lo:hi].hilbert_distance(p=p)], [int(x) for x in fresh.hilbert_distance(p=p)]
+                ta, tb = [float(x) for x in arr[lo:hi].total_bounds], [float(x) for x in fresh.total_bounds]
+            except Exception as e:  # noqa: BLE001
+                chk.violation(f"hilbert_distance/window-default-bounds-raises-{common.err_kind(e)}", dict(rep, window=[lo, hi], error=repr(e)[:200]), size=n); return
+            if a != b or str(ta) != str(tb):
+                chk.violation(f"hilbert_distance/default-bounds-of-a-window-differ-from-a-fresh-array/{'head' if lo == 0 else 'tail' if hi == n else 'middle'}",
+                              dict(rep, window=[lo, hi], impl=a, fresh=b, own_total_bounds=ta, fresh_total_bounds=tb), size=n); return
+        chk.count("window-default-bounds")
     from spatialpandas import GeoSeries
     gs = GeoSeries(arr, index=[f"k{i}" for i in range(n)]).hilbert_distance(total_bounds=list(total), p=p)
     if [int(x) for x in gs.values] != hd or list(gs.index) != [f"k{i}" for i in range(n)]:
